@@ -35,7 +35,10 @@ Oracles    : implementation only, judged by harness/lib/sqlref.py (plain Python,
                           without rows, text as value set / between argument, the flag False)
              Every table generator also produces data files WITHOUT rows (append_records([]) / append_data([]) commit one), the
              filter generators columns the table does not have, str / bytes where a value set or a (lo, hi) pair is expected,
-             and ('is_null', False); the long-text domains contain values at and around random length boundaries with astral
+             and ('is_null', False); in / not_in value sets are held by EVERY iterable kind (list, tuple, set, frozenset, dict
+             views, range, deque, iterator, generator, map object -- a fresh object for every single call, sqlref.realise -- and a
+             dict, which is not a value set); every oracle also runs tables WRITTEN by a process in one time zone and READ by a
+             process in another (POSIX TZ strings, harness/lib/procconf.py; always when a column is temporal); the long-text domains contain values at and around random length boundaries with astral
              tails, and the literals around a text value include every truncation of it, closed and not closed by U+FFFF / U+10FFFF.
 Findings   : five defects of the unchanged tree (findings/C12-*unchanged-tree.log, findings/C12-replay-*.json), all repaired on
              the library branch: (1) scan(filter, verify_checksums=False) pushed the filter into pq.read_table, whose row-group
@@ -43,7 +46,10 @@ Findings   : five defects of the unchanged tree (findings/C12-*unchanged-tree.lo
              the expression when every file was pruned; (3) on a data file WITHOUT rows scan_batches / iter_records evaluated
              nothing and returned [] where scan() raised on a filter pyarrow cannot bind (unknown column, literal of the wrong
              type); (4) a str / bytes given as in / not_in value set or as between argument was iterated / unpacked character by
-             character; (5) the flag of is_null / is_not_null was ignored: ('is_null', False) selected the NULL rows.
+             character; (5) the flag of is_null / is_not_null was ignored: ('is_null', False) selected the NULL rows;
+             (6) an in / not_in value set was iterated twice (expression build, then file pruning): a one-shot iterable
+             (iterator, generator, map) was empty for pruning, every file was skipped and ('in', iter([7])) returned no rows on
+             a table holding 7; a dict was read as the set of its keys (findings/C12-one-shot-value-set-unchanged-tree.log).
              Open (modelled, C12_api_agree_empty_projection_refuted, excluded from
              the oracle): scan(columns=[]) returns no rows (pa.concat_tables) while the batch APIs yield one {} per row.
              Reading: a NULL inside an in / not_in value set is dropped (documented contract); for NOT IN that is not the SQL
@@ -119,15 +125,19 @@ MANIFEST_ENTRY = {
                   "project cols (filter sql (concat files)), pruning included), C12_refused_raises (an expression pyarrow refuses to "
                   "bind, or refuses on a row, raises in EVERY API; C12_zero_row_file_check_needed: why the batch readers must show "
                   "a file without rows to pyarrow), C12_strict (the parser fails EXACTLY on the conditions outside the documented "
-                  "language -- unknown / non-string operator, {c: None}, a str as value set or as between argument, the flag "
-                  "False -- and otherwise returns exactly their independent meaning), C12_strict_value_set, C12_strict_everywhere, "
+                  "language -- unknown / non-string operator, {c: None}, a str / scalar / mapping as value set, a str as between "
+                  "argument, the flag False -- and otherwise returns exactly their independent meaning), C12_strict_value_set, "
+                  "C12_strict_value_set_mapping, C12_value_set_kind_irrelevant (a value set held by any other iterable -- set, dict "
+                  "view, range, an iterator or generator that can be read only once -- gives, in every API on every table, the "
+                  "answer of the list of the same values: it is read once, by the parser), C12_strict_everywhere, "
                   "C12_operator_faithful / C12_operator_table (the regenerated tables ARE the independent reading of the "
                   "spellings), C12_not_in_nulls_dropped / C12_not_in_null_differs_from_sql (NULLs in a NOT IN value set are "
                   "dropped: exactly how that differs from the SQL standard), C12_project_after, and for tables "
                   "with a HISTORY C12_history_view / C12_history_files / C12_history_sql (after any sequence of committed "
                   "transactions -- multi-file appends, deletes that keep / rewrite / drop manifests, both at once -- the data "
                   "files a scan finds and the bounds pruning reads are those of the flat list semantics, and every API returns "
-                  "the SQL answer on the live files), C12_manifest_roundtrip, C12_rewrite_decision -- proved in Coq, "
+                  "the SQL answer on the live files; no hypothesis that paths are distinct: a path registered twice is read once, "
+                  "C12_history_files states the dedup form), C12_manifest_roundtrip, C12_rewrite_decision -- proved in Coq, "
                   "unbounded, over the filter compiler and operator tables regenerated from filters.py and the manifest bound "
                   "expressions / rewrite decision regenerated from file_manager.py / transaction.py on every run; pyarrow "
                   "primitive semantics, parser, builder, the four read pipelines and the manifest machine tied to the real code "
@@ -141,7 +151,12 @@ MANIFEST_ENTRY = {
                   "evaluation), B (expressions pyarrow refuses to bind to the files' schema, rows or no rows), PA (literals pyarrow "
                   "refuses when building) are universally quantified; the three argument guards of parse_filter_dict are pinned by "
                   "golden AST and modelled by hand (unpack2, flag_true, text_value_set; bytes value sets are outside the Coq value "
-                  "type: oracle only); executor.map order preservation for parallel scans; date vs "
+                  "type: oracle only); the value-set guard `isinstance(value, Mapping)` / `value = list(value)` is pinned by the same "
+                  "golden AST and modelled by hand (value_set, value_set_iter; an iterable is abstracted to the values it yields and "
+                  "whether it yields them again: iterk); an iterable that is not a list as the literal of a COMPARISON is modelled as "
+                  "the list literal (pyarrow refuses both; whether at build or at evaluation is PA's choice, not tied to the kind); "
+                  "C12_one_shot_second_reading_empty is explanatory (what the second reader of the unrepaired code saw); the time zone "
+                  "of the process is not in the model (the codec is zone-free): oracle and 'history' correspondence only; executor.map order preservation for parallel scans; date vs "
                   "timestamp comparisons (pyarrow casts, Python refuses) are outside the model and covered by the oracle only",
     "technique": "Coq proof over translator-regenerated filter compiler and manifest kernels (induction over transaction histories) "
                  "+ differential correspondence + independent SQL oracle over random and directed table histories",
@@ -875,10 +890,10 @@ def report(ctx, verdict, case, flt, columns, results, source: str) -> None:
             why = str(m_)
         except sqlref.Unjudged:
             why = ""
-        text = why.endswith(("not a str", "not a bytes", "not a bytearray"))
-        if why.startswith("between needs (lo, hi), not a") and text:
+        is_text = why.endswith(("not a str", "not a bytes", "not a bytearray"))
+        if why.startswith("between needs (lo, hi), not a") and is_text:
             sub = "between-text-unpacked"
-        elif why.startswith("in / not_in need a list of values, not a") and text:
+        elif why.startswith("in / not_in need a list of values, not a") and is_text:
             sub = "text-value-set-iterated"
         elif why.endswith("with the flag False"):
             sub = "null-test-flag-false"
@@ -899,7 +914,7 @@ def report(ctx, verdict, case, flt, columns, results, source: str) -> None:
     ops = sub
     if case.get("tz"):
         source += f"; table written by a process with TZ={case['tz'][0]!r}, read by one with TZ={case['tz'][1]!r}"
-        if key == "wrong-rows" and case["tz"][1] != "UTC":
+        if key == "wrong-rows" and case["tz"][1] != "UTC" and not ops.startswith("one-shot"):
             ops += "-reader-outside-utc"
     ctx.violation(f"{key}:{ops}", f"[{source}] filter {sqlref.filter_py(flt)!r} columns={columns}: {text}",
                   case_json(case, flt, columns, {"verdict": key, "results": {k: list(v) if v[0] == "raises" else [v[0], list(v[1])] for k, v in results.items()}}))
@@ -1966,7 +1981,7 @@ def run(ctx) -> None:
         "all files of a table share the parquet schema `sch` (C11); projections are judged against it",
         "date vs timestamp comparisons (pyarrow casts, Python refuses) and inexact literals on float32 columns are outside the model; the oracle demands cross-API agreement there",
         "NaN membership (NaN in [NaN]) is judged by cross-API agreement only (DESIGN.md C12 Interpretation)",
-        "histories: every data file has its own path (uuid names; NoDup hypothesis of C12_history_files); paths are compared after stripping "
+        "histories: the generated histories give every data file its own path (uuid names; C12_history_files / C12_history_sql do not need it: dedup form); paths are compared after stripping "
         "leading '/' on both sides (pinned by the translator; the oracle deletes by both spellings); the JSON text and the Avro map between "
         "_encode_bound and _decode_bound carry (tag, payload) exactly (Model/Bound.v; checked per entry by the 'history' correspondence)",
         "the content of a table after a history is DEFINED by the list semantics (a committed transaction removes the files it deletes and "
